@@ -540,78 +540,124 @@ theorem isPermOf_lt {order : List Nat} {N : Nat} (h : isPermOf order N = true) :
   intro n hn
   exact List.mem_range.1 (hperm.symm.subset hn)
 
+theorem resolveOptdims_ok {N : Nat} {o : Option (List Nat)} {od : List Nat}
+    (h : resolveOptdims N o = .ok od) : od = o.getD (List.range N) := by
+  cases o with
+  | none => simp [resolveOptdims, pure, Except.pure] at h; simp [h]
+  | some l =>
+    simp only [resolveOptdims] at h
+    split at h
+    · simp [pure, Except.pure] at h; simp [h]
+    · cases h
+
+theorem setup_ok {D : Data α} {P : Params α} {init : Init α} {di od dims : List Nat} {K : Ktensor α}
+    (h : setup D P init = .ok (di, od, dims, K)) :
+    di = P.dimorder.getD (List.range D.shape.length) ∧ isPermOf di D.shape.length = true ∧
+    resolveOptdims D.shape.length P.optdims = .ok od ∧ P.rank ≠ 0 ∧
+    resolveInit D P.rank di init = .ok K ∧ dims = di.filter (fun d => od.contains d) ∧ dims ≠ [] := by
+  unfold setup at h
+  dsimp only at h
+  split at h
+  · cases h
+  rename_i hperm
+  cases ho : resolveOptdims D.shape.length P.optdims with
+  | error e => rw [ho] at h; cases h
+  | ok od' =>
+    rw [ho] at h
+    dsimp only at h
+    split at h
+    · cases h
+    rename_i hrank
+    cases hk : resolveInit D P.rank (P.dimorder.getD (List.range D.shape.length)) init with
+    | error e => rw [hk] at h; cases h
+    | ok K' =>
+      rw [hk] at h
+      dsimp only at h
+      split at h
+      · cases h
+      rename_i hempty
+      simp only [Except.ok.injEq, Prod.mk.injEq] at h
+      obtain ⟨rfl, rfl, rfl, rfl⟩ := h
+      refine ⟨rfl, by simpa using hperm, rfl, by simpa using hrank, hk, rfl, ?_⟩
+      intro he; rw [he] at hempty; exact hempty rfl
+
 theorem setup_spec {D : Data α} {P : Params α} {init : Init α} {di od dims : List Nat} {K : Ktensor α}
     (h : setup D P init = .ok (di, od, dims, K)) (hi : InitOK D P.rank init) :
     ShapeOK D.shape P.rank K.factors ∧ K.weights.length = P.rank ∧ dims ≠ [] ∧ 0 < P.rank ∧
     isPermOf di D.shape.length = true ∧ dims = di.filter (fun d => od.contains d) ∧
     (∀ K0, init = .given K0 → K = K0) := by
-  unfold setup at h
-  simp only [bind, Except.bind, pure, Except.pure] at h
-  split at h
-  · cases h
-  split at h
-  · cases h
-  rename_i hperm hrank
-  have hperm' : isPermOf (P.dimorder.getD (List.range D.shape.length)) D.shape.length = true := by
-    simpa using hperm
-  cases init with
-  | given K0 =>
-    simp only at h
-    split at h
-    · cases h
-    split at h
-    · cases h
-    split at h
-    · rename_i hlen hw hall
-      split at h
-      · cases h
-      rename_i hempty
-      simp only [Except.ok.injEq, Prod.mk.injEq] at h
-      obtain ⟨rfl, rfl, rfl, rfl⟩ := h
-      refine ⟨⟨by simpa using hlen, fun n hn => ?_⟩, by simpa using hw, ?_, ?_, ?_, rfl, fun K1 hK => by cases hK; rfl⟩
-      · have := (List.all_eq_true.1 hall) n (isPermOf_mem hperm' hn)
+  obtain ⟨_, hperm, _, hrank, hk, hdims, hne⟩ := setup_ok h
+  refine ⟨?_, ?_, hne, Nat.pos_of_ne_zero hrank, hperm, hdims, ?_⟩
+  · cases init with
+    | given K0 =>
+      simp only [resolveInit] at hk
+      split at hk
+      · cases hk
+      split at hk
+      · cases hk
+      split at hk
+      · rename_i hlen hw hall
+        simp only [pure, Except.pure, Except.ok.injEq] at hk
+        subst hk
+        refine ⟨by simpa using hlen, fun n hn => ?_⟩
+        have := (List.all_eq_true.1 hall) n (isPermOf_mem hperm hn)
         simp only [Bool.and_eq_true, beq_iff_eq, List.all_eq_true] at this
         exact ⟨this.1, fun row hrow => by simpa using this.2 row hrow⟩
-      · intro he; rw [he] at hempty; exact hempty rfl
-      · rcases Nat.eq_zero_or_pos P.rank with h0 | h0
-        · simp [h0] at hrank
-        · exact h0
-      · exact hperm'
-    · cases h
-  | random draws =>
-    simp only at h
-    split at h
-    · cases h
-    rename_i hempty
-    simp only [Except.ok.injEq, Prod.mk.injEq] at h
-    obtain ⟨rfl, rfl, rfl, rfl⟩ := h
-    refine ⟨⟨by simp, fun n hn => ?_⟩, by simp, ?_, ?_, hperm', rfl, fun K1 hK => by cases hK⟩
-    · have := hi n hn
+      · cases hk
+    | random draws =>
+      simp only [resolveInit, pure, Except.pure, Except.ok.injEq] at hk
+      subst hk
+      refine ⟨by simp, fun n hn => ?_⟩
+      have := hi n hn
       simpa [List.getD_eq_getElem?_getD, hn] using this
-    · intro he; rw [he] at hempty; exact hempty rfl
-    · rcases Nat.eq_zero_or_pos P.rank with h0 | h0
-      · simp [h0] at hrank
-      · exact h0
-  | nvecs =>
-    simp only at h
-    cases hf : D.nvecs with
-    | none => rw [hf] at h; cases h
-    | some f =>
-      rw [hf] at h
-      simp only at h
-      split at h
-      · cases h
-      rename_i hempty
-      simp only [Except.ok.injEq, Prod.mk.injEq] at h
-      obtain ⟨rfl, rfl, rfl, rfl⟩ := h
-      refine ⟨⟨by simp, fun n hn => ?_⟩, by simp, ?_, ?_, hperm', rfl, fun K1 hK => by cases hK⟩
-      · have := hi f hf n hn
+    | nvecs =>
+      simp only [resolveInit] at hk
+      cases hf : D.nvecs with
+      | none => rw [hf] at hk; cases hk
+      | some f =>
+        rw [hf] at hk
+        simp only [pure, Except.pure, Except.ok.injEq] at hk
+        subst hk
+        refine ⟨by simp, fun n hn => ?_⟩
+        have := hi f hf n hn
         simpa [List.getD_eq_getElem?_getD, hn] using this
-      · intro he; rw [he] at hempty; exact hempty rfl
-      · rcases Nat.eq_zero_or_pos P.rank with h0 | h0
-        · simp [h0] at hrank
-        · exact h0
-  | unsupported => simp only at h; cases h
+    | unsupported => simp only [resolveInit] at hk; cases hk
+  · cases init with
+    | given K0 =>
+      simp only [resolveInit] at hk
+      split at hk
+      · cases hk
+      split at hk
+      · cases hk
+      split at hk
+      · rename_i hlen hw hall
+        simp only [pure, Except.pure, Except.ok.injEq] at hk
+        subst hk
+        simpa using hw
+      · cases hk
+    | random draws =>
+      simp only [resolveInit, pure, Except.pure, Except.ok.injEq] at hk
+      subst hk; simp
+    | nvecs =>
+      simp only [resolveInit] at hk
+      cases hf : D.nvecs with
+      | none => rw [hf] at hk; cases hk
+      | some f =>
+        rw [hf] at hk
+        simp only [pure, Except.pure, Except.ok.injEq] at hk
+        subst hk; simp
+    | unsupported => simp only [resolveInit] at hk; cases hk
+  · intro K0 hK
+    subst hK
+    simp only [resolveInit] at hk
+    split at hk
+    · cases hk
+    split at hk
+    · cases hk
+    split at hk
+    · simp only [pure, Except.pure, Except.ok.injEq] at hk
+      exact hk.symm
+    · cases hk
 
 end setup
 
@@ -620,33 +666,24 @@ variable {α : Type} [Add α] [Sub α] [Mul α] [Div α] [Neg α] [Zero α] [One
 
 theorem setup_rejects (D : Data α) (P : Params α) (init : Init α)
     (h : isPermOf (P.dimorder.getD (List.range D.shape.length)) D.shape.length = false ∨ P.rank = 0 ∨
+      (∃ od, P.optdims = some od ∧ optdimsOK od D.shape.length = false) ∨
       (P.dimorder.getD (List.range D.shape.length)).filter
         (fun d => (P.optdims.getD (List.range D.shape.length)).contains d) = []) :
     setup D P init = .error .reject := by
-  unfold setup
-  simp only [bind, Except.bind, pure, Except.pure]
-  split
-  · rfl
-  split
-  · rfl
-  rcases h with h | h | h
-  · rename_i h1 _; simp [h] at h1
-  · rename_i _ h2; simp [h] at h2
-  · cases init with
-    | given K0 =>
-      simp only
-      split; · rfl
-      split; · rfl
-      split
-      · rw [h]; rfl
-      · rfl
-    | random draws => simp only; rw [h]; rfl
-    | nvecs =>
-      simp only
-      cases D.nvecs with
-      | none => rfl
-      | some f => simp only; rw [h]; rfl
-    | unsupported => rfl
+  cases hs : setup D P init with
+  | error e => cases e; rfl
+  | ok r =>
+    obtain ⟨di, od, dims, K⟩ := r
+    obtain ⟨h1, h2, h3, h4, _, h6, h7⟩ := setup_ok hs
+    exfalso
+    rcases h with h | h | ⟨od', hod, hbad⟩ | h
+    · rw [← h1, h2] at h; cases h
+    · exact h4 h
+    · rw [hod] at h3
+      simp [resolveOptdims, hbad] at h3
+    · have := resolveOptdims_ok h3
+      rw [← h1, ← this] at h
+      exact h7 (h6.trans h)
 
 theorem run_rejects (D : Data α) (S : Services α) (o : NumOps α) (P : Params α) (init : Init α)
     (h : P.maxiters = 0 ∨ setup D P init = .error .reject) : run D S o P init = .error .reject := by
